@@ -408,11 +408,18 @@ def analyse_c09(job):
             except ref.RefError as e:
                 row['status'] = 'outside-reference:%s' % e
                 continue
-            if ref.expected_rejection(resolver, R0) is not None:
-                row['status'] = 'rejected-as-documented'
-                continue
             d = cgv().dump(shell, text)
-            d2 = cgv().dump(shell, text2)
+            part_i_only = False
+            if ref.expected_rejection(resolver, R0) is not None:
+                if not d.get('ok') or d.get('ambiguity'):
+                    row['status'] = 'rejected-as-documented'
+                    continue
+                # accepted although the documentation says such a grammar is rejected (that is C08's subject, not claimed):
+                # it is an accepted grammar, so what C09 says about every point of it must hold; the `|` twin is still rejected
+                part_i_only = True
+                d2 = d
+            else:
+                d2 = cgv().dump(shell, text2)
             if (not d.get('ok') and d.get('error') in ref.tolerated_rejections(resolver)):
                 row['status'] = 'rejected-by-stricter-within-word-rule'
                 continue
@@ -464,6 +471,9 @@ def analyse_c09(job):
                                     'state %d of the minimised automaton for %s has two within-word items that accept exactly the '
                                     'same words but lead to different states (%d and %d)' % (f, shell, t1, t2),
                                     {'grammar': text, 'shell': shell, 'state': f, 'min': mn}))
+            if part_i_only:
+                row['status'] = 'accepted-though-rejection-documented'
+                continue
             # (ii) level-erased equivalence of G and G[|| := |], automata treated as NFAs
             subs = [erased_sub_auto(sd) for sd in d['min']['subdfas']]
             subs2 = [erased_sub_auto(sd) for sd in d2['min']['subdfas']]
